@@ -90,13 +90,24 @@ CLAIMS['C14'] = dict(
     note=_TB + 'function maps are required ordered by (line, column), as Metro emits them.',
     design_ref='DESIGN.md (C14 added in the build phase)')
 
+CLAIMS['C05'] = dict(
+    text='PARTIAL SCOPE, unbounded where it applies: for every function under contract (listed in evidence.functions_under_contract) Verus proves absence of arithmetic '
+         'overflow, out-of-bounds indexing, unwrap/expect on None/Err, explicit panics and callee-precondition violations, and termination of every loop, for all inputs '
+         'admitted by the stated type invariants (sorted tokens, in-range indices, root cache). This covers the VLQ codec, the mapping loop of decode_regular and decode_rmi, '
+         'both header strippers, lookup (regular and index), token accessors, builder, setters, serialize_mappings and Hermes scope lookup.',
+    note=_TB + 'Out of reach and listed under not_covered on every run: serde_json / url / bitvec / data-encoding / base64-simd internals, sourceview.rs (unsafe, Mutex, atomics), '
+         'js_identifiers.rs, locate_sourcemap_reference, formatting impls, ram_bundle.rs, allocation size and wall-clock; stated size assumptions (tables < 2^32-16 entries, strings < usize::MAX/6 bytes).',
+    design_ref='DESIGN.md 5 C05')
+
 NOT_APPLICABLE = {p: 'under construction in this session (contract-based check being built; see DESIGN.md decision table)' for p in
-                  ['C05', 'C09', 'C10', 'C15', 'C17', 'C18', 'C19', 'C20']}
+                  ['C09', 'C10', 'C15', 'C17', 'C18', 'C19', 'C20']}
 NOT_APPLICABLE['C16'] = ('concurrency (interleavings of threads sharing a SourceView over std Mutex / atomics): Kani has no thread support and Verus needs '
                          'its own permission-typed primitives, so no contract within reach of the installed verifiers expresses or decides it')
 
 # parts of each property that no discharged obligation covers (reported in every evidence file, never counted)
 NOT_COVERED = {
+    'C05': ['dependencies (serde_json, url, bitvec, data-encoding, base64-simd, debugid)', 'sourceview.rs, js_identifiers.rs, detector.rs line scan, Display/Debug impls, ram_bundle.rs',
+            'flatten (+ off_col / + off_line overflow, design-phase defect D6), rewrite, adjust_mappings, range bitfield writer (D4), decode_hermes', 'allocation in proportion to the input; wall-clock (only termination is proved)'],
     'C08': ['flatten (token translation, contents, ignore list, nested indexes)', 'agreement lemma lookup vs flatten', 'DecodedMap::lookup_token dispatch (assumed naming)'],
     'C14': ['decode_hermes function-map decoding (running column/name/line state)', 'get_original_function_name wrapper', 'stability under serialise/decode'],
     'C01': ['mapping-level inverse lemma decode(encode(ts)) == dedup(ts) (spec level)', 'as_raw_sourcemap field plumbing (SourceMap / SourceMapIndex / Hermes)',
